@@ -253,9 +253,38 @@ pub fn make_safe(mut r: asp::Rule, domain: &[(String, usize)], choices: &[u8]) -
 /// rules that are safe with probability ~0.8
 pub fn shaped_rule(cfg: &AspCfg) -> BoxedStrategy<asp::Rule> {
     let domain: Vec<(String, usize)> = cfg.preds.iter().filter(|p| p.1 > 0).cloned().collect();
-    (rule(cfg), vec(any::<u8>(), 4), 0u8..10)
-        .prop_map(move |(r, choices, p)| if p < 8 && !domain.is_empty() { make_safe(r, &domain, &choices) } else { r })
+    (rule(cfg), vec(any::<u8>(), 4), 0u8..10, 0u8..24)
+        .prop_map(move |(r, choices, p, mirror)| {
+            let r = if p < 8 && !domain.is_empty() { make_safe(r, &domain, &choices) } else { r };
+            mirror_head(r, mirror)
+        })
         .boxed()
+}
+
+/// 1 rule in 8: the body is (or starts with) the rule's own head atom under a sign
+/// (`p :- not p.`, `p(X) :- not not p(X), q(X).`, `{p} :- p.`): shapes that rewrites about a
+/// formula and its own negation / implication by itself are sensitive to
+fn mirror_head(mut r: asp::Rule, k: u8) -> asp::Rule {
+    if k >= 3 {
+        return r;
+    }
+    let atom = match &r.head {
+        asp::Head::Basic(a) | asp::Head::Choice(a) => a.clone(),
+        asp::Head::Falsity => return r,
+    };
+    let sign = match k {
+        0 => asp::Sign::Negation,
+        1 => asp::Sign::DoubleNegation,
+        _ => asp::Sign::NoSign,
+    };
+    let lit = asp::AtomicFormula::Literal(asp::Literal { sign, atom });
+    // keep the rest of the body in half of the cases (decided by its length, to stay deterministic)
+    if r.body.formulas.len() % 2 == 0 {
+        r.body.formulas = vec![lit];
+    } else {
+        r.body.formulas.insert(0, lit);
+    }
+    r
 }
 
 pub fn shaped_program(cfg: &AspCfg, min_rules: usize) -> BoxedStrategy<asp::Program> {
